@@ -1,16 +1,35 @@
 ------------------------------ MODULE Trace_Codec ------------------------------
-EXTENDS Xsd2020a, Json, IOUtils
+(* Trace validation for C01 / C02 / C03.  One trace per case, one event:                                          *)
+(*   xml_roundtrip / pb_roundtrip   d, desc (descriptor), orig (leaves of the objects the harness built),         *)
+(*                                  back (leaves read back, reals as closeness classes), exc ("" | write | read)  *)
+(*   xsd                            els / ids / refs (element entries of the written document), lxml verdict,      *)
+(*                                  reader ("ok" | "exc"), exc ("" | "write")                                      *)
+(* Expected leaves, carried fields, expressibility and the schema verdict come from Codec / Xsd2020a; the clause  *)
+(* prefix names the owning property (C01 xml_roundtrip, C02 pb_roundtrip, C03 xsd).                               *)
+EXTENDS Codec, Json, IOUtils
 Traces == ndJsonDeserialize(IOEnv.TRACE_FILE)
 VARIABLES tid, l, err
 tvars == <<tid, l, err>>
+
+RoundTrip(e, fmt) ==
+  LET pre == IF fmt = "xml" THEN "C01." ELSE "C02." IN
+  IF ~(IF fmt = "xml" THEN XmlExpressible(e.desc) ELSE PbExpressible(e.desc)) THEN "driver/inexpressible-case"
+  ELSE IF e.orig # Leaves(e.desc) THEN "driver/alpha-gamma"        \* the harness built / projected something else
+  ELSE IF e.exc = "write" THEN pre \o "Total/write"
+  ELSE IF e.exc = "read" THEN pre \o "Total/read"
+  ELSE Diff(fmt, Expected(fmt, e.desc), e.back)
+
 Clause(e) ==
-  CASE e.op = "xsd" ->
+  CASE e.op = "xml_roundtrip" -> RoundTrip(e, "xml")
+    [] e.op = "pb_roundtrip"  -> RoundTrip(e, "pb")
+    [] e.op = "xsd" ->
          IF e.exc # "" THEN "C03.Total/write"
-         ELSE LET r == DocRule(e.els, e.ids, e.refs) IN
+         ELSE LET r == DocRule(e.els, e.ids, e.refs) IN        \* lxml only cross-checks the transcription
               IF (r = "") # (e.lxml = "valid") THEN "machinery/schema-transcription"
               ELSE IF r # "" THEN "C03." \o r
               ELSE IF e.reader # "ok" THEN "C03.ReaderAccepts" ELSE ""
     [] OTHER -> "machinery/unknown-op"
+
 TInit == tid \in 1..Len(Traces) /\ l = 1 /\ err = 0
 TStep == /\ l <= Len(Traces[tid].ev)
          /\ LET e == Traces[tid].ev[l]  c == Clause(e)
